@@ -11,9 +11,16 @@ from vlib import core, calib
 LEVEL = "proof"
 
 
+def num_eq(a, b):
+    """exact equality of two bounds as numbers (np.float32(17.3) == 17.3 is True in numpy although the values differ)"""
+    if a is None or b is None:
+        return a is None and b is None
+    return float(a) == float(b)
+
+
 def slices_equal(a, b):
     if isinstance(a, slice) and isinstance(b, slice):
-        return a.start == b.start and a.stop == b.stop and a.step == b.step
+        return num_eq(a.start, b.start) and num_eq(a.stop, b.stop) and a.step == b.step
     if isinstance(a, (list, tuple)) and isinstance(b, (list, tuple)):
         return len(a) == len(b) and all(slices_equal(x, y) for x, y in zip(a, b))
     if isinstance(a, dict) and isinstance(b, dict):
@@ -41,7 +48,11 @@ def run_case(ctx, p):
     secs = f.sections
     if p.get("retype"):
         xi = np.round(x * 1000) / 1000
-        secs = retype(rng, {k: [slice(np.floor(s.start), np.ceil(s.stop)) for s in v] for k, v in f.sections.items()})
+        if p["seed"] % 2:
+            secs = retype(rng, {k: [slice(np.floor(s.start), np.ceil(s.stop)) for s in v] for k, v in f.sections.items()})
+        else:   # bounds that are NOT representable in the narrower float types: the reported definition must carry the very same numbers
+            dxm = float(np.min(np.diff(x)))
+            secs = {k: [slice(np.float32(s.start - 0.31 * dxm), np.float32(s.stop + 0.31 * dxm)) for s in v] for k, v in f.sections.items()}
     kw = case.kwargs(sections=secs)
     ctx.case(("c17", repr(sorted(p.items()))), sample={**p, "sections": {k: [(type(s.start).__name__, type(s.stop).__name__) for s in v] for k, v in secs.items()}})
     try:
@@ -65,6 +76,15 @@ def run_case(ctx, p):
             ctx.violation(f"trans_att-differs:{where}:{tag}", f"{where}: trans_att coordinate is not the splice list", p)
 
     reported(out, "calibrate")
+    # what the accessor hands out is a fresh copy: editing it in place must not change what is reported afterwards
+    got = out.dts.sections
+    k0 = next(iter(got))
+    got[k0].append(slice(-1.0, -0.5))
+    got["edited"] = []
+    gm = out.dts.matching_sections
+    if gm:
+        gm.append(gm[0])
+    reported(out, "calibrate-after-editing-the-returned-definition")
     v = case.variances()
     mc = None
     optsets = [{}, {"mc_remove_set_flag": False}, {"reduce_memory_usage": True}] + ([{"var_only_sections": True}, {"exclude_parameter_uncertainty": True}] if f.double else [])
